@@ -37,6 +37,18 @@ Theorem c09_redecl_last_wins : forall (ds : list decl) (n : nat) (z : decl),
   fields_named n ds = [z].
 Proof. exact redecl_last_wins. Qed.
 
+(* in particular the assignments `_self.n = e` generated for n are exactly the initialiser of the LAST declaration — none at
+   all when the last declaration is bare, whatever initialisers earlier declarations of n carried *)
+Theorem c09_redecl_last_initialiser : forall (ds : list decl) (n : nat) (z : decl),
+  (forall a b, In a ds -> In b ds -> d_name a = n -> d_name b = n -> d_sig a = d_sig b) ->
+  prog_get_relation n ds = Some z ->
+  initialisers_emitted n ds = match d_init z with Some e => [e] | None => [] end.
+Proof. exact redecl_last_initialiser. Qed.
+Example c09_example_init_then_bare :
+  let ds := [ {| d_name := 0; d_sig := 5; d_init := Some 7%nat |}; {| d_name := 0; d_sig := 5; d_init := None |} ] in
+  initialisers_emitted 0 ds = [] /\ initialisers_emitted 0 (rev ds) = [7%nat].
+Proof. exact redecl_init_then_bare. Qed.
+
 (* the deduplication itself, for every comparison that is an equivalence: of each class exactly the last element stays *)
 Theorem c09_dedup_keeps_last : forall (A : Type) (cmp : A -> A -> bool) (l : list A) (x : A),
   (forall a b, cmp a b = true -> cmp b a = true) ->
@@ -131,7 +143,7 @@ Proof. vm_compute. reflexivity. Qed.
    ascent_run_par! agree with the serial macros (C02's subject), and name resolution / spans / feature resolution of the
    real toolchain. *)
 
-Print Assumptions c09_redecl_last_wins. Print Assumptions c09_dedup_keeps_last.
+Print Assumptions c09_redecl_last_wins. Print Assumptions c09_redecl_last_initialiser. Print Assumptions c09_example_init_then_bare. Print Assumptions c09_dedup_keeps_last.
 Print Assumptions c09_init_is_input. Print Assumptions c09_ascent_run_equals_struct_run. Print Assumptions c09_ascent_run_least_model.
 Print Assumptions c09_run_is_timeout_max. Print Assumptions c09_run_via_timeout_is_run.
 Print Assumptions c09_timing_flags_inert.
